@@ -53,7 +53,23 @@ def local_names(fn: ast.AST):
                 banned.add((al.asname or al.name).split(".")[0])
         elif isinstance(n, ast.Constant) and isinstance(n.value, str) and n.value.isidentifier():
             banned.add(n.value)   # getattr/locals()-style string references
-    return {b for b in bound - params - banned if not b.startswith("__") and b != "_" and not keyword.iskeyword(b)}
+    names = {b for b in bound - params - banned if not b.startswith("__") and b != "_" and not keyword.iskeyword(b)}
+    # parameters of private functions (underscore-prefixed: never part of an interface) are renamed too, unless the name is passed
+    # as a keyword somewhere in the package (GLOBAL_KEYWORDS) or is one of the conventional receivers
+    if fn.name.startswith("_") and not fn.name.startswith("__"):
+        nested_params = set()
+        for n in ast.walk(fn):
+            if isinstance(n, (ast.FunctionDef, ast.AsyncFunctionDef, ast.Lambda)) and n is not fn:
+                aa = n.args
+                nested_params |= {x.arg for x in aa.posonlyargs + aa.args + aa.kwonlyargs}
+        plain = {x.arg for x in a.posonlyargs + a.args} - {"self", "cls", "caller", "environment", "context", "eval_ctx"}   # names fixed by the Jinja call protocol
+        attrs = {n.attr for n in ast.walk(fn) if isinstance(n, ast.Attribute)}
+        strs = {n.value for n in ast.walk(fn) if isinstance(n, ast.Constant) and isinstance(n.value, str) and n.value.isidentifier()}
+        names |= {p_ for p_ in plain if p_ not in GLOBAL_KEYWORDS and p_ not in nested_params and p_ not in attrs and p_ not in strs and not p_.startswith("_")}
+    return names
+
+
+GLOBAL_KEYWORDS = set()
 
 
 def rename_module(src: str) -> str:
@@ -82,7 +98,7 @@ def rename_module(src: str) -> str:
     for t in toks:
         if t.type == tokenize.NAME:
             for start, end, body_start, names in spans:
-                if body_start <= t.start[0] <= end and t.string in names and not (prev_sig is not None and prev_sig.string == "."):
+                if start <= t.start[0] <= end and t.string in names and not (prev_sig is not None and prev_sig.string == "."):
                     t = t._replace(string=t.string + "_zq")
                     break
         if t.type not in (tokenize.NL, tokenize.NEWLINE, tokenize.COMMENT, tokenize.INDENT, tokenize.DEDENT):
@@ -109,6 +125,13 @@ def main(dest: str) -> int:
         shutil.rmtree(target)
     target.parent.mkdir(parents=True, exist_ok=True)
     shutil.copytree(REPO / "src" / "nunavut", target, ignore=shutil.ignore_patterns("__pycache__"))
+    for q in sorted(target.rglob("*.py")):
+        try:
+            for n in ast.walk(ast.parse(q.read_text(encoding="utf-8"))):
+                if isinstance(n, ast.keyword) and n.arg:
+                    GLOBAL_KEYWORDS.add(n.arg)
+        except SyntaxError:
+            pass
     n_files = n_changed = 0
     for p in sorted(target.rglob("*.py")):
         rel = p.relative_to(target).as_posix()
